@@ -609,7 +609,10 @@ def gen_stats_tree(rng):
                 content = ''
             if kind not in ('text', 'binary', 'unparsable'):
                 ascii_compat = True
-            c['files'].append(dict(opts={}, meta=dict(opts={'format': {'s': 'json'}}, content=meta),
+            # the file section's OWN encoding option (it concerns the metadata) is no statement about the diff
+            fopts = {'encoding': {'s': rng.choice(['utf-16', 'utf-16-le', 'utf-16-be', 'utf-32', 'cp037', 'latin-1', 'utf-8'])}} \
+                if rng.random() < 0.3 else {}
+            c['files'].append(dict(opts=fopts, meta=dict(opts={'format': {'s': 'json'}}, content=meta),
                                    diff=dict(opts=o, content=content)))
             cexp.append(dict(kind=kind, counts=counts, old=meta.get('stats'), ascii=ascii_compat))
         t['changes'].append(c)
@@ -622,7 +625,7 @@ class Stats(Family):
     rule = ('trees with 0-3 changes x 0-3 files whose diffs are assembled from generated hunk ASTs with known counts '
             '(garbage lines between hunks, unix/dos, declared/undeclared line endings, 8 diff encodings incl. UTF-16/32, '
             'binary/empty/absent/unparsable diffs, pre-existing stats dictionaries with custom keys and the keys the '
-            'specification documents, line-splitter characters inside hunk lines); generate_stats '
+            'specification documents, line-splitter characters inside hunk lines, file sections with an encoding of their own); generate_stats '
             'once and twice; non-trivial = at least one text diff; distinct by tree')
 
     def cases(self, tier, rng, prop_id):
@@ -1017,7 +1020,8 @@ class Alias(Family):
     rule = ('random interleavings (8-20 operations) over up to 4 live trees: construct (with keyword attributes), parse '
             'with one shared reader object, add_change/add_file, typed attribute assignment with right and wrong '
             'values, in-place mutation of metadata and options dictionaries (incl. live values JSON has no notation '
-            'for: iterators, sets, views; equal immutable values are ONE object), serialise with one shared writer object '
+            'for: iterators, sets, views; dict subclasses such as defaultdict; equal immutable values are ONE object), '
+            'serialise with one shared writer object '
             '(each result compared afterwards with a tree rebuilt from scratch), '
             '==/!=/repr, generate_stats; after every operation every live tree is snapshotted and compared with the '
             'value-level model; non-trivial = at least two trees alive and one mutation; distinct by operation list')
@@ -1052,6 +1056,18 @@ class Alias(Family):
                                                                   ['eq', 0, 1], ['to_bytes', 1], ['to_bytes', 0]])
             mkp = lambda t, e: [['new', [['encoding', {'s': e or 'utf-8'}], ['preamble', {'s': 'Summary\r\nline\n'}]]]]
             yield dict(kind='ops', ops=mkp(0, e0) + mkp(1, e1) + [['to_bytes', 0], ['to_bytes', 1], ['to_bytes', 0], ['to_bytes', 1], ['eq', 0, 1]])
+        # metadata held in a dict SUBCLASS (defaultdict inserts a key when a missing one is read, OrderedDict, Counter), with and
+        # without the keys the specification documents, at every level, and nested under `path` / `revision`
+        for kind in sl.DICT_KINDS:
+            for items in ([['k', 'v']], [['path', 'a']], [['revision', 'r']], []):
+                for path, pre in (('main', []), (['c', 0], [['add_change', 0, []]]),
+                                  (['f', 0, 0], [['add_change', 0, []], ['add_file', 0, 0, [['meta', {'d': {'path': 'a'}}]]]])):
+                    live = {'__live__': kind, 'items': items}
+                    yield dict(kind='ops', ops=[['new', []]] + pre + [
+                        ['set', 0, path, 'meta', {'d': live}], ['to_bytes', 0], ['to_bytes', 0], ['eq', 0, 0], ['to_bytes', 0]])
+                    for key in ('path', 'revision', 'stats'):
+                        yield dict(kind='ops', ops=[['new', []]] + pre + [
+                            ['meta_put', 0, path, key, live], ['to_bytes', 0], ['to_bytes', 0], ['eq', 0, 0], ['to_bytes', 0]])
         for i in range(400 if tier == 'quick' else 8000):
             ops = gen_ops(rng, rng.randint(8, 20))
             if i % 4 == 0:
